@@ -136,7 +136,8 @@ def plot_cyclepoints_array(sig, fs, peaks=None, troughs=None, rises=None, decays
     check_param_range(fs, 'fs', (0, np.inf))
 
     # Set times and limits
-    times = np.arange(0, len(sig) / fs, 1 / fs)
+    #   One time per sample: np.arange(0, len(sig) / fs, 1 / fs) can have an extra entry due to rounding
+    times = np.arange(len(sig)) / fs
 
     # Restrict sig and times to xlim
     if xlim is not None:
@@ -158,8 +159,10 @@ def plot_cyclepoints_array(sig, fs, peaks=None, troughs=None, rises=None, decays
         if points is not None:
 
             # Limit times and shift indices of cyclepoints (cps)
-            cps = points[(points >= times[0]*fs) & (points < times[-1]*fs)]
-            cps = cps - int(times[0]*fs)
+            #   Use integer sample indices, times[0] * fs is not exact in floating point
+            first = int(round(times[0] * fs))
+            cps = points[(points >= first) & (points < first + len(times) - 1)]
+            cps = cps - first
 
             y_values.append(sig[cps])
             x_values.append(times[cps])
